@@ -34,7 +34,7 @@ for f in sorted(glob.glob('seeded/*/meta.json')):
     t.append("| %s | %s | %s | %s | **%s** – %s |"%(i,v.get('property',m.get('property')),cut(m.get('summary',''),230),cut(m.get('needs',''),200),out,cut(v.get('how',''),300)))
 t.append("")
 t.append("Tally of %d: %d caught by the checks as they stood; %d caught after a workload extension made between reading the sub-agent's report and the first evaluation (not counted as caught at once); %d missed at first and caught after the strengthening named in the table. After the last strengthening every kept change is caught by its property's quick check at the default seed (`seeded/eval.sh`).\n"%(n_once+n_pre+n_after,n_once,n_pre,n_after))
-t.append("What the misses taught, in short: probe bodies must include \"do nothing\" bodies (c14a) and programs must be able to END in a blocking built-in (c14e); wrong answers must be near misses (c20a); the generator must shadow with a different type late in a scope (c02a – which also exposed a genuine defect) and compare unlike composites inside `any` (c02d); repetition must include the real command line and new processes (c08b); padding-like bugs need systematic lengths × final bytes (c20b); crash consistency needs histories, not single runs (c18b); archive members must be able to grow (c18c); `-c` needs formatted files among unformatted ones (c18d); a sleep of zero duration must not give the simulated browser a turn (c14f – a modelling error, corrected); the SVG platform must be in the path of the real command (c02e); files that are not on the command line need an oracle too (c18f); elapsed time must differ between schedules, not only the epoch (c08f); every expression form must be able to be the one in flight when a stop lands (c14g); stdin is an input like any file (c18g); objects with state need operation sequences against a reference model, not fresh objects per step (c20g); the same literal must be evaluated more than once and its values must go separate ways (c02g); an API that is 'a function of its input' must be called twice on the same object (c08h); pictures are outputs too (c20h); loop variables may shadow (c02h); input lines must be allowed to be very long (c02c); and the minimiser must never change which violation it is looking at (c02c). From the later waves: corruption of ONE stored value does not find what only shows between TWO values of one process (c20i – splices); near-miss names must be near TWO known names (c08i); a cache is only wrong when the same key is asked for the other kind of result (c20j – programs shared by text and picture questions); and what is an Evy panic today (asserting an any to another type) must stay in the workload, because a change can turn exactly that into something worse (c02j); the same holds for what the parser REJECTS today (c02k – near-valid battery); a blocking call must also be in flight as an argument of another call, not only as a statement (c14l); the structural bytes of a stored format deserve every value even in the quick tier (c20k); a shape that matters must not depend on the seed to be in the quick tier (c14m); and a marking can name a choice that does not exist (found a genuine defect, C20).\n")
+t.append("What the misses taught, in short: probe bodies must include \"do nothing\" bodies (c14a) and programs must be able to END in a blocking built-in (c14e); wrong answers must be near misses (c20a); the generator must shadow with a different type late in a scope (c02a – which also exposed a genuine defect) and compare unlike composites inside `any` (c02d); repetition must include the real command line and new processes (c08b); padding-like bugs need systematic lengths × final bytes (c20b); crash consistency needs histories, not single runs (c18b); archive members must be able to grow (c18c); `-c` needs formatted files among unformatted ones (c18d); a sleep of zero duration must not give the simulated browser a turn (c14f – a modelling error, corrected); the SVG platform must be in the path of the real command (c02e); files that are not on the command line need an oracle too (c18f); elapsed time must differ between schedules, not only the epoch (c08f); every expression form must be able to be the one in flight when a stop lands (c14g); stdin is an input like any file (c18g); objects with state need operation sequences against a reference model, not fresh objects per step (c20g); the same literal must be evaluated more than once and its values must go separate ways (c02g); an API that is 'a function of its input' must be called twice on the same object (c08h); pictures are outputs too (c20h); loop variables may shadow (c02h); input lines must be allowed to be very long (c02c); and the minimiser must never change which violation it is looking at (c02c). From the later waves: corruption of ONE stored value does not find what only shows between TWO values of one process (c20i – splices); near-miss names must be near TWO known names (c08i); a cache is only wrong when the same key is asked for the other kind of result (c20j – programs shared by text and picture questions); and what is an Evy panic today (asserting an any to another type) must stay in the workload, because a change can turn exactly that into something worse (c02j); the same holds for what the parser REJECTS today (c02k – near-valid battery); a blocking call must also be in flight as an argument of another call, not only as a statement (c14l); the structural bytes of a stored format deserve every value even in the quick tier (c20k); a shape that matters must not depend on the seed to be in the quick tier (c14m); and a marking can name a choice that does not exist (found a genuine defect, C20). From the waves that were given lists of ideas already taken: state that one program leaves in the process must be looked for by comparing a USED process with a fresh one (c08o, c08p); a fault space enumerated over the fault-free trace is blind to what the command does after a failure, so the enumeration must follow the command there (c18q); files can have two names (c18p); predefined names are names too - assign to them, shadow them (c02s, c08p); format strings, pictures and markings have their own 'almost right' (c02t, c20q, c20o); commands other than the obvious one print diagnostics as well (c08q); and a battery of rejected programs only helps if each program would actually run once accepted - every name it declares must be used (found a genuine defect, 9c805ab).\n")
 s=open('DESIGN.md').read()
 a=s.index('<!-- RESULTS:BEGIN -->')+len('<!-- RESULTS:BEGIN -->\n')
 b=s.index('<!-- RESULTS:END -->')
